@@ -49,11 +49,11 @@ def fp_rdms(o):
 def fp_dataset(o):
     out = {'array': fp_array(o.measurements),
            'descriptors': fp_dict(o.descriptors, drop=()),
-           'obs_descriptors': fp_dict(o.obs_descriptors),
-           'channel_descriptors': fp_dict(o.channel_descriptors),
+           'obs_descriptors': fp_dict(o.obs_descriptors, drop=()),          # (datasets have no library-managed 'index')
+           'channel_descriptors': fp_dict(o.channel_descriptors, drop=()),
            'dims': (o.n_obs, o.n_channel)}
     if hasattr(o, 'time_descriptors'):
-        out['time_descriptors'] = fp_dict(o.time_descriptors)
+        out['time_descriptors'] = fp_dict(o.time_descriptors, drop=())
         out['dims'] = out['dims'] + (o.n_time,)
     return out
 
